@@ -7,7 +7,7 @@
    release that reads 0 runs the destructor chain and free.  A schedule is an
    arbitrary list of thread ids; threads, their operation lists and the class
    hierarchy are arbitrary. *)
-From PV Require Import Base.Tac Base.ListX Obj.ObjDefs Obj.ObjClassProofs Obj.ObjRefProofs.
+From PV Require Import Base.Tac Base.ListX Obj.ObjDefs Obj.ObjClassProofs Obj.ObjRefProofs Obj.ObjFirstProofs.
 Local Open Scope Z_scope.
 
 (* ---- (a) every class chain: any depth, any pattern of NULL constructors/destructors,
@@ -149,6 +149,57 @@ Theorem C34_whole_life : forall junk k ths sched, disciplined ths ->
 Proof. exact whole_life. Qed.
 Print Assumptions C34_whole_life.
 
+(* ---- (c) first use: ANY number of threads create an object of the same not yet initialised
+   class (each then runs ANY disciplined, balanced retain/release list on its own object), ANY
+   schedule over the scheduling points lock / unlock / fetch-add ---- *)
+
+(* any interleaving of initialise attempts builds the arrays exactly once, and they are the
+   arrays of ONE sequential parsec_class_initialize *)
+Theorem C34_first_use_init_once : forall junk k opss sched, first_use_ok opss ->
+  let ks := fc_k (frun true junk k (finit opss) sched) in
+  0 <= k_inits ks <= 1 /\
+  (k_init ks = true -> k_tab ks = Some (class_initialize junk k) /\ k_inits ks = 1 /\
+                        tab_ctors ks = rev (ctors_of k) /\ tab_dtors ks = dtors_of k) /\
+  (k_init ks = false -> k_tab ks = None /\ k_inits ks = 0).
+Proof. exact first_use_init_once. Qed.
+Print Assumptions C34_first_use_init_once.
+
+(* class_lock is held exactly while one thread is between lock and unlock *)
+Theorem C34_first_use_mutex : forall junk k opss sched, first_use_ok opss ->
+  let c := frun true junk k (finit opss) sched in
+  cnt is_unlock (fc_thr c) = (if k_lock (fc_k c) then 1 else 0).
+Proof. exact first_use_mutex. Qed.
+Print Assumptions C34_first_use_mutex.
+
+(* at every moment every thread's log is: nothing before its object is constructed; then all
+   constructors base -> derived followed by updates >= 1; and once its last reference went,
+   additionally the update 0, all destructors derived -> base and free - none before *)
+Theorem C34_first_use_lives : forall junk k opss sched t th, first_use_ok opss ->
+  nth_error (fc_thr (frun true junk k (finit opss) sched)) t = Some th ->
+  match f_pc th with
+  | FOps => (1 <= f_rc th /\ life_running k (f_ev th)) \/
+            (f_rc th = 0 /\ f_ops th = [] /\ life_complete k (f_ev th))
+  | _ => f_ev th = []
+  end.
+Proof. exact first_use_lives. Qed.
+Print Assumptions C34_first_use_lives.
+
+Theorem C34_first_use_finished : forall junk k opss sched t th, first_use_ok opss ->
+  nth_error (fc_thr (frun true junk k (finit opss) sched)) t = Some th ->
+  fthr_done th = true -> life_complete k (f_ev th) /\ f_rc th = 0.
+Proof. exact first_use_finished. Qed.
+Print Assumptions C34_first_use_finished.
+
+(* the same model WITHOUT the re-test of cls_initialized under the lock builds the arrays twice:
+   the block another thread's constructor / destructor chain is walking gets replaced *)
+Theorem C34_first_use_no_recheck_refuted : exists junk k opss sched, first_use_ok opss /\
+  k_inits (fc_k (frun false junk k (finit opss) sched)) = 2.
+Proof.
+  exists (fun _ => None), (Derived (Some 1%nat) (Some 1%nat) (Base None None)), [[Release]; [Release]], [0;1;0;0;1;1]%nat.
+  split; [|exact no_recheck_twice]. repeat constructor.
+Qed.
+Print Assumptions C34_first_use_no_recheck_refuted.
+
 (* ---- what the discipline buys: thread 1 retains WITHOUT holding a reference (it borrows
    thread 0's); when thread 0's release comes first the retain touches a destroyed object
    and the following release destroys it a second time.  (With the other order all is well:
@@ -172,3 +223,15 @@ Example C34_example :
   o_trace (snd (obj_life (fun _ => Some 9%nat) k ths [0;1;1;0;1;0;1]%nat)) =
     [EUpd 1%nat 4; EUpd 0%nat 3; EUpd 1%nat 2; EUpd 0%nat 1; EUpd 1%nat 0; EDtor 2%nat; EDtor 1%nat; EFree].
 Proof. vm_compute. repeat split; try congruence; repeat constructor. Qed.
+
+(* non-vacuity of (c): three threads, all see the class uninitialised; thread 1 wins the lock *)
+Example C34_example_first_use :
+  let k := Derived None (Some 2%nat) (Derived (Some 1%nat) (Some 1%nat) (Base None None)) in
+  let opss := [[Release]; [Retain; Release; Release]; [Release]] in
+  first_use_ok opss /\
+  let c := frun true (fun _ => Some 9%nat) k (finit opss) [0;1;2;1;0;2;1;1;0;0;1;2;2;1;1;0;2]%nat in
+  k_inits (fc_k c) = 1 /\
+  map f_ev (fc_thr c) = [[FCtor 1%nat; FUpd 0; FDtor 2%nat; FDtor 1%nat; FFree];
+                         [FCtor 1%nat; FUpd 2; FUpd 1; FUpd 0; FDtor 2%nat; FDtor 1%nat; FFree];
+                         [FCtor 1%nat; FUpd 0; FDtor 2%nat; FDtor 1%nat; FFree]].
+Proof. split; [repeat constructor|]. vm_compute. split; reflexivity. Qed.
